@@ -4,9 +4,10 @@ Codec level: Props/C07.v + Props/C11_patch.v, mode c07 and c11p of harness/codec
 Binding level: mode c07http of harness/httpdrv (harness/httpdrv/c07http.go) - the family resources (checks/family.py RESOURCES:
 excluded-field sets read-only only / create-only only / both / none, collection and simple) through the REAL generator, then the
 generated clients against the generated RegisterResource; the expected excluded set per method is derived from the restspec
-annotations by the driver, independently of the generator."""
+annotations by the driver, independently of the generator.  The same mode runs on the bindings of the ROOT generator
+(checks/roothttp.py)."""
 import json, os
-import httpdrv, patchmode, rootmode
+import httpdrv, patchmode, roothttp, rootmode
 from lib import *
 
 HTTP_TRUSTED = (
@@ -39,6 +40,8 @@ def http_post(run, rep0, out0):
     if HTTP_TRUSTED not in run.trusted:
         run.trusted.append(HTTP_TRUSTED)
     run.log("generated bindings: %d evaluations, %d oracle failures" % (hrep["evaluations"], len(hrep["failures"])))
+    # the same oracle on the bindings of the ROOT generator (codegen/resources): coverage under run.cov["root_http"], signatures root:http:*
+    roothttp.run_root(run, "c07http", run.tier, run.seed)
 
 
 def main(tier, seed, replay):
